@@ -173,6 +173,10 @@ SHADOW_CASES = [
     ('reference outside the binder still denotes the rule', 'X = "x"\nT(X) = X\nstart = [T("a"), X]', '_try_start', None),
     ('unshadowed rule reference', 'X = "x"\nT(Y) = [Y, X]\nstart = T("a")', '_try_T', ['Y', '_try_X']),
     ('parameter used after an inner let of another name', 'X = "x"\nT(p) = let q = p in [q, p, X]\nstart = T("a")', '_try_T', ['p', 'q', 'p', '_try_X']),
+    ('the same parameter name in a LATER template is bound again (scope bookkeeping returns to zero)', 'T(p) = p\nU(p) = [p, p]\nstart = T("a") | U("b")', '_try_U', ['p', 'p']),
+    ('the same let name in a later rule is bound again', 'A = let v = "a" in v\nB = let v = "b" in [v, v]\nstart = A | B', '_try_B', ['v', 'v']),
+    ('the same class parameter name in a later class is bound again', 'class C(p) {\n f: p\n}\nclass D(p) {\n g: p\n h: p\n}\nstart = C("a") | D("b")', '_try_D', ['p', 'p']),
+    ('a name bound twice in a row inside one rule', 'X = "x"\nR = [(let X = "q" in X), (let X = "r" in X), X]\nstart = R', '_try_R', ['X', 'X', '_try_X']),
     ('a let inside a keyword argument ends with the argument', 'X = "x"\nT(k) = k\nR = [T(k=(let X = "q" in X)), X]\nstart = R', '_try_R', None),
     ('a let inside a positional argument ends with the argument', 'X = "x"\nT(k) = k\nR = [T((let X = "q" in X)), X]\nstart = R', '_try_R', None),
     ('a let inside a list ends with the list', 'X = "x"\nR = [(let X = "q" in X)*, X]\nstart = R', '_try_R', 'last-is-rule'),
